@@ -321,3 +321,31 @@ def standard_proof_obligations(run, module, theorems, allowed_axioms=()):
     if hits:
         broken.append(("forbidden vernacular", "\n".join(hits)))
     return broken
+
+
+# ---------------------------------------------------------------- sharded evaluation of case lists
+
+def eval_shards(prefix, header, items, elem_type, evals, shard=150, timeout=900):
+    """Write `items` (Coq terms of type elem_type) into shards `Definition cases : list elem_type := [...]`,
+    append `Eval vm_compute in <e>.` for each e in evals, run all shards in parallel.
+    Returns (results, errors): results[j] = concatenation over shards of the integers printed by eval j."""
+    paths = []
+    for k in range(0, max(len(items), 1), shard):
+        chunk = items[k:k + shard]
+        src = [header, "Definition cases : list %s := [\n %s\n]." % (elem_type, ";\n ".join(chunk))]
+        src += ["Eval vm_compute in (%s)." % e for e in evals]
+        paths.append(write_case_file("%s_%03d.v" % (prefix, k // shard), "\n".join(src) + "\n"))
+    out = run_case_files(paths, timeout=timeout)
+    results = [[] for _ in evals]
+    errors = []
+    for (p, rc, ev, raw, dt) in out:
+        if rc != 0 or len(ev) != len(evals):
+            errors.append((p, raw[-1500:]))
+            continue
+        for j, lst in enumerate(ev):
+            results[j].extend(lst)
+    return results, errors
+
+
+def read_jsonl(text):
+    return [json.loads(l) for l in text.splitlines() if l.strip()]
